@@ -99,54 +99,65 @@ def Crit.ambiguous : Crit → Ent → Bool
 /-- key of a tip branch whose length was set to 0 by `--tips` -/
 def Ent.key0 (e : Ent) : Key := ({ e with len := 0 } : Ent).key
 
-/-- MANDATORY after the operation, for one branch of the tree before: a tip branch (with length 0 if it
-    definitely meets the criterion and `--tips` is set; nothing is demanded of its length if that is
-    ambiguous), an inner branch that meets the criterion under no reading. -/
-def mandKey (crit : Crit) (rt : Bool) (e : Ent) : Option Key :=
-  if e.tip then
-    (if rt && crit.ambiguous e then none else some (if rt && crit.definite e then e.key0 else e.key))
-  else if crit.definite e || crit.ambiguous e then none else some e.key
+/-- MANDATORY after the operation under ONE reading `sel` of the criterion, for one branch of the tree
+    before: a tip branch (length 0 if selected and `--tips`), an inner branch that is not selected. -/
+def mandKeyR (sel : Ent → Bool) (rt : Bool) (e : Ent) : Option Key :=
+  if e.tip then some (if rt && sel e then e.key0 else e.key)
+  else if sel e then none else some e.key
 
-/-- OPTIONAL: may be there or not.  An inner branch that meets the criterion only under the sentinel
-    reading; a root branch of a rooted tree (PROTECTED) that meets it, where the property makes no claim
-    (the code keeps it unless `--root`); an ambiguous tip branch under `--tips`, with either length. -/
-def optKeys (crit : Crit) (rt : Bool) (e : Ent) : List Key :=
-  if e.tip then (if rt && crit.ambiguous e then [e.key0, e.key] else [])
-  else if crit.ambiguous e || (crit.definite e && e.prot) then [e.key] else []
+/-- OPTIONAL under that reading: a selected root branch of a rooted tree (PROTECTED) when `--root` /
+    `removeRoot` is NOT given — the property makes no claim there and the code keeps it.  With `--root` the
+    documentation says the criterion "applies also to internal branches connected to the root": nothing
+    is optional then. -/
+def optKeysR (sel : Ent → Bool) (rr : Bool) (e : Ent) : List Key :=
+  if !e.tip && sel e && e.prot && !rr then [e.key] else []
 
-/-- The collapse post-condition.  `rt` = the documented `--tips` behaviour (a tip branch that
-    meets the criterion gets length 0, nothing else happens to it).
-    * no tip lost, none invented, root node untouched;
-    * every MANDATORY branch is still there with its length, support and node name;
-    * every inner branch that DEFINITELY meets the criterion and is not PROTECTED is gone — also in
-      trees with single-child inner nodes (strict since fix 82ce8b8);
-    * OPTIONAL branches may stay or go;
-    * nothing else exists afterwards. -/
-def collapseOK (crit : Crit) (rt : Bool) (b a : T) : Bool :=
+/-- the collapse post-condition under one reading of the criterion -/
+def collapseUnder (sel : Ent → Bool) (rt rr : Bool) (b a : T) : Bool :=
   let all := b.tipNames
   let eb := ents all b
   let ea := ents all a
-  let mand := eb.filterMap (mandKey crit rt)
-  let opt := eb.flatMap (optKeys crit rt)
+  let mand := eb.filterMap (mandKeyR sel rt)
+  let opt := eb.flatMap (optKeysR sel rr)
   sortS a.tipNames == sortS all
     && a.name == b.name
     && msub mand (ea.map Ent.key)
     && msub (mdiff (ea.map Ent.key) mand) opt
+
+/-- The collapse post-condition.  `rt` = `--tips` (a selected tip branch gets length 0, nothing else
+    happens to it), `rr` = `--root` / `removeRoot`.
+    * no tip lost, none invented, root node untouched;
+    * every tip branch and every inner branch that is not selected is still there with its length,
+      support and node name;
+    * every selected inner branch is gone — also in trees with single-child inner nodes, and also the
+      root branches of a rooted tree when `rr` is set; without `rr` a selected root branch may stay or go;
+    * nothing else exists afterwards;
+    all this under ONE reading of an absent length for the whole call: either the sentinel reading of the
+    code (`Crit.holds`: absent = −1) or "a branch without length is never selected" (`Crit.definite`) —
+    the documentation does not choose, but the criterion cannot tell two length-less branches apart, so
+    they share one fate. -/
+def collapseOKr (crit : Crit) (rt rr : Bool) (b a : T) : Bool :=
+  collapseUnder crit.holds rt rr b a || collapseUnder crit.definite rt rr b a
+
+/-- the same without the `--root` clause (root branches of a rooted tree always optional): the form the
+    earlier theorems are stated with -/
+def collapseOK (crit : Crit) (rt : Bool) (b a : T) : Bool := collapseOKr crit rt false b a
 
 /-- does some verdict rest on the sentinel reading: an inner branch (or, with `--tips`, a tip branch)
     without length that the code's reading selects -/
 def usesAmbiguity (crit : Crit) (rt : Bool) (b : T) : Bool :=
   (ents b.tipNames b).any fun e => crit.ambiguous e && (!e.tip || rt)
 
-/-- Which sub-clause fails (for the detail string). -/
-def collapseWhy (crit : Crit) (rt : Bool) (b a : T) : String :=
+/-- Which sub-clause fails (for the detail string; judged under the code's reading). -/
+def collapseWhy (crit : Crit) (rt rr : Bool) (b a : T) : String :=
   let all := b.tipNames
   let eb := ents all b
   let ea := ents all a
-  let mand := eb.filterMap (mandKey crit rt)
+  let mand := eb.filterMap (mandKeyR crit.holds rt)
   if sortS a.tipNames != sortS all then "tip set changed"
   else if a.name != b.name then "root node changed"
   else if !(msub mand (ea.map Ent.key)) then "a branch that must stay (tip, or criterion not met) is missing or changed"
+  else if rr then "a branch that meets the criterion survived (with --root also a root branch must go), or a branch was invented"
   else "a branch that meets the criterion survived, or a branch was invented"
 
 /- at most two children below the root -/
@@ -166,7 +177,8 @@ def deg3 (t : T) : Bool := decide (t.kids.length ≤ 3) && deg3L t.kids
     node name); what was added are inner branches of length 0 without support (the property says
     nothing about the names of the new nodes: not demanded here; the model tie compares them);
     all tip-to-tip distances equal; and the result is binary whenever the
-    input had no single-child node and a root of degree ≥ 2; in every case (single-child nodes
+    input had no single-child node and a root of degree ≥ 2 (below a root that is itself a tip: every
+    node binary); in every case (single-child nodes
     included) no node is left with more than three neighbours. -/
 def resolveOK (b a : T) : Bool :=
   let all := b.tipNames
@@ -179,6 +191,7 @@ def resolveOK (b a : T) : Bool :=
           fun x => x.1.2.1 == 0 && x.1.2.2.1 == NIL && !x.2)
     && a.distMatrix == b.distMatrix
     && (!(b.noSingle && 2 ≤ b.kids.length) || a.binary)
+    && (!(b.noSingle && b.kids.length == 1) || binaryL a.kids)
     && deg3 a
 
 def resolveWhy (b a : T) : String :=
@@ -190,6 +203,7 @@ def resolveWhy (b a : T) : String :=
   else if !(msub kb ka) then "an original branch is missing or changed"
   else if a.distMatrix != b.distMatrix then "a tip-to-tip distance changed"
   else if (b.noSingle && 2 ≤ b.kids.length) && !a.binary then "result is not binary"
+  else if (b.noSingle && b.kids.length == 1) && !(binaryL a.kids) then "result is not binary below the tip-root"
   else if !(deg3 a) then "a node is left with more than three neighbours"
   else "an added branch is not (inner, length 0, no support)"
 
